@@ -124,6 +124,11 @@ struct QueueState {
     q: VecDeque<usize>,
     waker: Option<Waker>,
     closed: bool,
+    /// `Ready(None)` was returned
+    ended: bool,
+    /// ... and the stream was polled again after that, which the `Stream`
+    /// contract forbids (a stream that is not fused may panic then)
+    polled_after_end: bool,
 }
 
 struct QueueStream(Rc<RefCell<QueueState>>);
@@ -135,6 +140,10 @@ impl Stream for QueueStream {
         if let Some(v) = s.q.pop_front() {
             Poll::Ready(Some(v))
         } else if s.closed {
+            if s.ended {
+                s.polled_after_end = true;
+            }
+            s.ended = true;
             Poll::Ready(None)
         } else {
             s.waker = Some(cx.waker().clone());
@@ -150,6 +159,12 @@ enum LimCtl {
 }
 
 impl LimCtl {
+    fn polled_after_end(&self) -> bool {
+        match self {
+            LimCtl::Queue(q) => q.borrow().polled_after_end,
+            _ => false,
+        }
+    }
     fn set(&mut self, v: usize) {
         match self {
             LimCtl::Obs(Some(o)) => {
